@@ -312,14 +312,9 @@ def find_min_one(ctx, rng, name):
                 good = False
     if not good:
         mech = "wrong_order_or_pole"
-        if name == "plscf" and len(Fn_r) == 0 and not (Lab == 7).any():
-            # mechanism test for the legacy label: nothing is ever found with labels 0/1, something is found once stable poles carry label 7
-            try:
-                alt = plscf.pLSCF_mpe(list(req), Fn, Xi, Phi, "find_min", Lab=np.where(Lab == 1, 7, Lab), rtol=rtol)
-                if len(np.atleast_1d(alt[0])) > 0:
-                    mech = "stable_label_is_7_not_1"
-            except Exception:  # noqa: BLE001
-                pass
+        if name == "plscf" and len(Fn_r) == 0 and not (Lab == 7).any() and keys_on_label_7():
+            # nothing can ever be found with labels 0/1 because the routine selects label 7 (calibration probe below)
+            mech = "stable_label_is_7_not_1"
         elif name == "ssi" and o_abs != o_exp and ((o_out is None and o_abs is None) or (o_out is not None and np.ndim(o_out) == 0 and o_abs is not None and int(o_out) == o_abs)):
             mech = "absolute_band_instead_of_relative"
         ctx.fail(f"{sigp}:{mech}", f"{tag}: requests {np.round(req, 4).tolist()} rtol={rtol}: order_out={o_out!r}, lowest order with exactly one stable pole per band is {o_exp} "
@@ -332,6 +327,32 @@ def find_min_one(ctx, rng, name):
     if name == "ssi":
         ctx.sample({"entry": "ssi.SSI_mpe find_min", "requests": np.round(req, 4).tolist(), "rtol": rtol, "expected order": o_exp, "order under absolute band": o_abs,
                     "stable poles per order": (Lab == 1).sum(axis=0).tolist()})
+
+
+_PROBE = {}
+
+
+def keys_on_label_7():
+    """calibration probe, once per process: on a canonical 2-mode table pLSCF_mpe('find_min') finds the modes iff stable poles carry label 7."""
+    if "v" not in _PROBE:
+        from pyoma2.functions import plscf
+        Fn = np.full((3, 4), np.nan)
+        Fn[0, 1:] = 10.0
+        Fn[1, 1:] = 20.0
+        Xi = np.where(np.isfinite(Fn), 0.01, np.nan)
+        Phi = np.where(np.isfinite(Fn)[:, :, None], 1.0 + 0j, np.nan)
+        Lab = np.where(np.isfinite(Fn), 1, 0)
+        Lab[:, 1] = 0
+
+        def found(L):
+            try:
+                out = plscf.pLSCF_mpe([10.0, 20.0], Fn, Xi, Phi, "find_min", Lab=L, rtol=0.01)
+                return len(np.atleast_1d(out[0])) == 2
+            except Exception:  # noqa: BLE001
+                return False
+
+        _PROBE["v"] = (not found(Lab)) and found(np.where(Lab == 1, 7, Lab))
+    return _PROBE["v"]
 
 
 def run_real(ctx, rng):
